@@ -1,7 +1,7 @@
 ---- MODULE Trace_Par ----
 (* C12: a recorded execution of a library routine under the sequentialising OpenMP stand-in: for every parallel region
    the cells each team member wrote (measured by snapshot differences of every buffer the call can reach, the callers'
-   stack and the static data), and whether the final output is bit-identical to the one-member execution.
+   stack and the static data; one record per barrier phase of a region), and whether the final output is bit-identical to the one-member execution.
    Accepted iff in every region the members' write sets are pairwise disjoint (no cell written by two members: this is
    where a temporary hoisted out of the loop or made static shows), the delivered team is within 1..requested, the
    output does not depend on team size and member order, and the routine's own exactness flags hold. *)
@@ -9,7 +9,7 @@ EXTENDS TraceBase
 VARIABLE l
 Overlap(a, b) == a[1] = b[1] /\ a[2] <= b[3] /\ b[2] <= a[3]
 DisjointW(w1, w2) == \A i \in 1..Len(w1), j \in 1..Len(w2) : ~Overlap(w1[i], w2[j])
-RegionOk(r) == /\ r.T >= 1 /\ r.T <= r.req /\ Len(r.members) = r.T
+RegionOk(r) == /\ r.T >= 1 /\ r.T <= r.req /\ Len(r.members) <= r.T       \* a later barrier phase may have fewer unfinished members
                /\ \A m1, m2 \in 1..Len(r.members) : m1 < m2 => DisjointW(r.members[m1].w, r.members[m2].w)
                /\ \A m1, m2 \in 1..Len(r.members) : m1 < m2 => r.members[m1].tid # r.members[m2].tid
 OkPar(e) == e.same /\ e.flags_ok /\ \A k \in 1..Len(e.regions) : RegionOk(e.regions[k])
